@@ -140,7 +140,7 @@ def check_one(ctx, label, P_in, rng, other):
     agg.count("delimited_by_" + how)
     for tname, T in tails(rng, other):
         data = P + T
-        for kind in ("bytes", "bytearray", "bytesio@k", "file", "buffered", "pipe", "wrapper", "wrapper-dribble"):
+        for kind in ("bytes", "bytearray", "bytesio@k", "file", "buffered", "pipe", "wrapper", "wrapper-dribble", "mmap@k"):
             ch = h(kind.encode() + b"|" + tname.encode() + b"|" + data)
             if not ctx.mine(ch):
                 continue
@@ -179,6 +179,16 @@ def run_kind(ctx, f, label, kind, tname, P, T, names):
             with open(tmp, "wb") as fh:
                 fh.write(junk + data)
             stream = open(tmp, "rb", buffering=0 if kind == "file" else 64)
+            stream.seek(len(junk))
+            src = stream
+        elif kind == "mmap@k":
+            import mmap
+            tmp = os.path.join(ctx.scratch, f"c06_{os.getpid()}.map")
+            with open(tmp, "wb") as fh:
+                fh.write(junk + data)
+            fobj = open(tmp, "rb")
+            stream = mmap.mmap(fobj.fileno(), 0, access=mmap.ACCESS_READ)
+            fobj.close()
             stream.seek(len(junk))
             src = stream
         elif kind == "pipe":
@@ -244,6 +254,11 @@ def run_kind(ctx, f, label, kind, tname, P, T, names):
         if sum(len(op.data) for op in p) != len(P):
             agg.violation("opcode-data-partition", "opcode byte slices do not partition the pickle",
                           witness(label, kind, tname, P, T))
+        if kind == "mmap@k":
+            # (an mmap has no seekable() before Python 3.13, so it is read like a non-seekable stream; only that the
+            # pickle at the map's *current position* was parsed is asserted here - by the dumps comparison above)
+            agg.count("mmap_checks")
+            return
         if kind in ("bytes", "bytearray"):
             agg.count("bytes_checks")
             if kind == "bytearray" and bytes(src) != data:
